@@ -4,7 +4,7 @@ S=$1; shift; P=${S%-*}; CHECKS=${*:-$P}
 cd /repo && git apply /verif/seeded/$S/patch.diff || exit 2
 RES=""
 for c in $CHECKS; do o=$(cd /verif && ./check $c 2>&1 | grep -E "VIOLATION|quick:" | tail -1); RES="$RES$c: $o|"; done
-git -C /repo checkout -- .
+git -C /repo checkout -- .; git -C /verif checkout -- evidence 2>/dev/null
 python3 - <<PY
 import json
 p="/verif/seeded/$S/confirm.json"; j=json.load(open(p)); j.setdefault("history",[]).append(j.get("checks_run")); j["checks_run"]=[x for x in """$RES""".split("|") if x]; json.dump(j,open(p,"w"),indent=1); print("$S", j["checks_run"])
